@@ -41,6 +41,22 @@ CHECKS = {
    "Enumerates (thorough: all 1800; quick: a seeded sample) short scripts over {connect fails, connect succeeds, established connection reset} x lazy/eager plus sampled longer ones; a scripted connector feeds the real Channel and a real server; each call is judged by a reference model driven by the connector invocations actually observed during that call; hangs are decided in virtual time.",
    "Held on the scripts produced; calls are issued at quiescent points only (as the property says).",
    "runtime monitoring: fault-script enumeration + reference model driven by observed connector invocations", "DESIGN.md#c14"),
+ "C05": ("exploration",
+   "Walks all 16x16 ordered send/accept configurations of the generated server and all client configurations, feeding grpc-accept-encoding / grpc-encoding values from a grammar and frames flagged 0/1; a negotiation model written from the property text judges response encoding, announcements, refusals (UNIMPLEMENTED + advertised set), INTERNAL on unnegotiated flag 1, and what the client sends and advertises; payloads are decompressed by an independent decompressor.",
+   "Held on the executions produced (configurations exhaustive, header values sampled); case variants of encoding tokens are not generated (property silent).",
+   "runtime monitoring: negotiation reference model over configuration grid + header grammar", "DESIGN.md#c05"),
+ "C09": ("exploration",
+   "Checks Request::set_timeout against the spec grammar and the <=/less-than-one-unit bounds with the harness's own parser on a boundary grid; enumerates the parser's input structure (unit x digits x shape) and malformed values through the verif-hooks wrapper; enforces min(caller, Server::timeout, Endpoint::timeout) against handler latency on a millisecond grid over the real transport on a paused clock.",
+   "Held on the executions produced; durations above 99999999 h are outside the property; ties (latency == timeout) excluded.",
+   "runtime monitoring: grammar oracle + hooked parser + virtual-time enforcement monitor", "DESIGN.md#c09"),
+ "C16": ("exploration",
+   "Drives the real GrpcWebLayer over a scripted inner service: responses under every chunking class and both encodings are decoded by an independent grpc-web decoder; requests (binary / base64 text cut anywhere) must reach the inner service as the original gRPC bytes; the full method x version x content-type matrix is walked exhaustively.",
+   "Held on the executions produced; unpadded base64 request bodies whose length is not a multiple of 4 are only checked for not delivering garbage.",
+   "runtime monitoring: independent grpc-web decoder + exhaustive status matrix", "DESIGN.md#c16"),
+ "C17": ("exploration",
+   "Drives the real GrpcWebClientService with bodies from the harness's own grpc-web encoder under every chunking class, every single/double cut of small bodies and truncation at every byte; checks message bytes, full trailers as a multimap, error-on-truncation, finality, and uses poll budgets plus a body that parks after 64 post-end polls to observe hangs and busy loops.",
+   "Held on the executions produced.",
+   "runtime monitoring: independent encoder + truncation rules + busy-loop/hang monitors", "DESIGN.md#c17"),
 }
 
 NOT_YET = {}
